@@ -1,1 +1,270 @@
-/-! C01 - property theorems (declared with their full name `C01.<name>`; helper lemmas go to Lemmas/) -/
+import CohdlVerif.Model.Coro
+
+/-! C01 - theorems (moved from the design sketches; names prefixed C01.) -/
+open CohdlVerif.C01
+
+variable {σ : Type} (act : Nat → σ → σ) (cond : Nat → σ → Bool)
+
+theorem C01.norm_sound (c : Code) : ∀ (p : Option Nat) (k : Option Nat → Tree) (s : σ),
+    runTree act cond (norm c p k) s =
+      runTree act cond (k (exec act cond c s p).2) (exec act cond c s p).1 := by
+  induction c with
+  | nil => intro p k s; simp [norm, exec]
+  | act a c ih => intro p k s; simp [norm, exec, runTree, ih]
+  | trans t c ih => intro p k s; simp [norm, exec, ih]
+  | ite c t e r iht ihe ihr =>
+    intro p k s
+    simp only [norm, exec, runTree]
+    split
+    · rw [iht, ihr]
+    · rw [ihe, ihr]
+
+theorem C01.unf_sound : ∀ (f : Nat) (p : Stmt) (st : List Frame) (fr : Bool) (t : STree),
+    unf f p st fr = some t → ∀ s : σ, run act cond f p st fr s = some (runS act cond t s) := by
+  intro f
+  induction f with
+  | zero => intro p st fr t h; simp [unf] at h
+  | succ f ih =>
+    intro p st fr t h s
+    cases p with
+    | skip =>
+      cases st with
+      | nil => simp [unf] at h; subst h; simp [run, runS]
+      | cons fr0 st =>
+        cases fr0 with
+        | seq k => simp only [unf] at h; simp only [run]; exact ih _ _ _ _ h s
+        | loop c b k => simp [unf] at h; subst h; simp [run, runS]
+        | callF k => simp only [unf] at h; simp only [run]; exact ih _ _ _ _ h s
+    | act a k =>
+      simp only [unf, Option.map_eq_some_iff] at h
+      obtain ⟨t', h', rfl⟩ := h
+      simp only [run, runS]; exact ih _ _ _ _ h' _
+    | await c k =>
+      simp only [unf] at h
+      cases fr with
+      | false => simp at h; subst h; simp [run, runS]
+      | true =>
+        simp only [if_true, Option.map_eq_some_iff] at h
+        obtain ⟨t', h', rfl⟩ := h
+        simp only [run, if_true]
+        cases c with
+        | none => simp only [evalC, iteC, if_true]; exact ih _ _ _ _ h' _
+        | some c =>
+          simp only [evalC, iteC, runS]
+          by_cases hc : cond c s = true
+          · simp only [hc, if_true]; exact ih _ _ _ _ h' _
+          · simp only [hc]; rfl
+    | awaitF => simp [unf] at h; subst h; simp [run, runS]
+    | ite c t1 e1 k =>
+      simp only [unf, Option.bind_eq_bind, Option.bind_eq_some_iff, Option.pure_def, Option.some.injEq] at h
+      obtain ⟨a, ha, b, hb, rfl⟩ := h
+      simp only [run, runS]
+      by_cases hc : cond c s = true
+      · simp only [hc, if_true]; exact ih _ _ _ _ ha _
+      · simp only [hc]; exact ih _ _ _ _ hb _
+    | while_ c b k =>
+      cases fr with
+      | false => simp [unf] at h; subst h; simp [run, runS]
+      | true =>
+        cases c with
+        | none =>
+          simp only [unf, if_true, Option.bind_eq_bind, Option.bind_eq_some_iff, Option.pure_def, Option.some.injEq] at h
+          obtain ⟨x, hx, rfl⟩ := h
+          simp only [run, evalC, if_true]; exact ih _ _ _ _ hx _
+        | some c =>
+          simp only [unf, if_true, Option.bind_eq_bind, Option.bind_eq_some_iff, Option.pure_def, Option.some.injEq] at h
+          obtain ⟨x, hx, y, hy, rfl⟩ := h
+          simp only [run, evalC, if_true, runS]
+          by_cases hc : cond c s = true
+          · simp only [hc, if_true]; exact ih _ _ _ _ hx _
+          · simp only [hc]; exact ih _ _ _ _ hy _
+    | brk =>
+      cases st with
+      | nil => simp [unf] at h
+      | cons fr0 st =>
+        cases fr0 with
+        | seq k => simp only [unf] at h; simp only [run]; exact ih _ _ _ _ h s
+        | loop c b k => simp only [unf] at h; simp only [run]; exact ih _ _ _ _ h s
+        | callF k => simp only [unf] at h; simp only [run]; exact ih _ _ _ _ h s
+    | cont =>
+      cases st with
+      | nil => simp [unf] at h
+      | cons fr0 st =>
+        cases fr0 with
+        | seq k => simp only [unf] at h; simp only [run]; exact ih _ _ _ _ h s
+        | callF k => simp only [unf] at h; simp only [run]; exact ih _ _ _ _ h s
+        | loop c b k =>
+          cases c with
+          | none =>
+            simp only [unf, Option.bind_eq_bind, Option.bind_eq_some_iff, Option.pure_def, Option.some.injEq] at h
+            obtain ⟨x, hx, rfl⟩ := h
+            simp only [run, evalC, if_true]; exact ih _ _ _ _ hx _
+          | some c =>
+            simp only [unf, Option.bind_eq_bind, Option.bind_eq_some_iff, Option.pure_def, Option.some.injEq] at h
+            obtain ⟨x, hx, y, hy, rfl⟩ := h
+            simp only [run, evalC, runS]
+            by_cases hc : cond c s = true
+            · simp only [hc, if_true]; exact ih _ _ _ _ hx _
+            · simp only [hc]; exact ih _ _ _ _ hy _
+    | ret =>
+      cases st with
+      | nil => simp [unf] at h
+      | cons fr0 st =>
+        cases fr0 with
+        | seq k => simp only [unf] at h; simp only [run]; exact ih _ _ _ _ h s
+        | loop c b k => simp only [unf] at h; simp only [run]; exact ih _ _ _ _ h s
+        | callF k => simp only [unf] at h; simp only [run]; exact ih _ _ _ _ h s
+    | call b k => simp only [unf] at h; simp only [run]; exact ih _ _ _ _ h s
+
+theorem C01.unfSusp_sound (f : Nat) (prog : Stmt) (r : Susp) (t : STree)
+    (h : unfSusp f prog r = some t) (s : σ) :
+    refStep act cond f prog r s = some (runS act cond t s) := by
+  cases r with
+  | start => simp only [unfSusp] at h; simp only [refStep]; exact C01.unf_sound act cond _ _ _ _ _ h s
+  | atAwait c k st =>
+    simp only [unfSusp, Option.map_eq_some_iff] at h
+    obtain ⟨t', h', rfl⟩ := h
+    simp only [refStep]
+    cases c with
+    | none => simp only [evalC, iteC, if_true]; exact C01.unf_sound act cond _ _ _ _ _ h' s
+    | some c =>
+      simp only [evalC, iteC, runS]
+      by_cases hc : cond c s = true
+      · simp only [hc, if_true]; exact C01.unf_sound act cond _ _ _ _ _ h' s
+      · simp only [hc]; rfl
+  | atHead c b k st =>
+    cases c with
+    | none =>
+      simp only [unfSusp, Option.bind_eq_bind, Option.bind_eq_some_iff, Option.pure_def, Option.some.injEq] at h
+      obtain ⟨x, hx, rfl⟩ := h
+      simp only [refStep, evalC, if_true]; exact C01.unf_sound act cond _ _ _ _ _ hx s
+    | some c =>
+      simp only [unfSusp, Option.bind_eq_bind, Option.bind_eq_some_iff, Option.pure_def, Option.some.injEq] at h
+      obtain ⟨x, hx, y, hy, rfl⟩ := h
+      simp only [refStep, evalC, runS]
+      by_cases hc : cond c s = true
+      · simp only [hc, if_true]; exact C01.unf_sound act cond _ _ _ _ _ hx s
+      · simp only [hc]; exact C01.unf_sound act cond _ _ _ _ _ hy s
+  | stopped => simp [unfSusp] at h; subst h; simp [refStep, runS]
+
+theorem C01.matchT_sound : ∀ (st : STree) (t : Tree) (i : Nat) (ps : List (Susp × Nat)),
+    matchT st t i = some ps → ∀ s : σ,
+      (runS act cond st s).2 = (runTree act cond t s).1 ∧
+      ((runS act cond st s).1, ((runTree act cond t s).2).getD i) ∈ ps := by
+  intro st
+  induction st with
+  | leaf r =>
+    intro t i ps h s
+    cases t with
+    | leaf n => simp [matchT] at h; subst h; simp [runS, runTree]
+    | act _ _ => simp [matchT] at h
+    | ite _ _ _ => simp [matchT] at h
+  | act a k ih =>
+    intro t i ps h s
+    cases t with
+    | leaf n => simp [matchT] at h
+    | act b k' =>
+      simp only [matchT] at h
+      split at h
+      · rename_i hab; subst hab; simp only [runS, runTree]; exact ih _ _ _ h _
+      · simp at h
+    | ite _ _ _ => simp [matchT] at h
+  | ite c t1 e1 iht ihe =>
+    intro t i ps h s
+    cases t with
+    | leaf n => simp [matchT] at h
+    | act _ _ => simp [matchT] at h
+    | ite c' t' e' =>
+      simp only [matchT] at h
+      split at h
+      · rename_i hcc; subst hcc
+        simp only [Option.bind_eq_bind, Option.bind_eq_some_iff, Option.pure_def, Option.some.injEq] at h
+        obtain ⟨x, hx, y, hy, rfl⟩ := h
+        simp only [runS, runTree]
+        by_cases hc : cond c s = true
+        · simp only [hc, if_true]
+          have := iht _ _ _ hx s
+          exact ⟨this.1, List.mem_append_left _ this.2⟩
+        · simp only [hc]
+          have := ihe _ _ _ hy s
+          exact ⟨this.1, List.mem_append_right _ this.2⟩
+      · simp at h
+
+theorem C01.step_sim (f : Nat) (prog : Stmt) (sm : SM) (R : List (Susp × Nat))
+    (hR : R.all (closedAt f prog sm R) = true) (r : Susp) (i : Nat) (hri : (r, i) ∈ R) (s : σ) :
+    ∃ r' , refStep act cond f prog r s = some (r', (smStep act cond sm i s).2) ∧
+           (r', (smStep act cond sm i s).1) ∈ R := by
+  have h1 := List.all_eq_true.mp hR _ hri
+  simp only [closedAt] at h1
+  split at h1
+  · simp at h1
+  · rename_i st hst
+    split at h1
+    · simp at h1
+    · rename_i ps hps
+      have hm := C01.matchT_sound act cond _ _ _ _ hps s
+      have hn := C01.norm_sound act cond (sm.codes.getD i .nil) none .leaf s
+      simp only [runTree] at hn
+      refine ⟨(runS act cond st s).1, ?_, ?_⟩
+      · rw [C01.unfSusp_sound act cond f prog r st hst s]
+        simp only [smStep]
+        rw [hn] at hm
+        simp only at hm
+        rw [← hm.1]
+      · have := List.all_eq_true.mp h1 _ hm.2
+        simp only [smStep]
+        rw [hn] at this
+        simpa using this
+
+theorem C01.validate_sound (f : Nat) (prog : Stmt) (sm : SM) (R : List (Susp × Nat))
+    (h : closed f prog sm R = true) (inp : Nat → σ → σ) (s0 : σ) :
+    ∀ n, ∃ r, refTrace act cond f prog inp n (some (.start, s0)) = some (r, (smTrace act cond sm inp n (0, s0)).2)
+            ∧ (r, (smTrace act cond sm inp n (0, s0)).1) ∈ R := by
+  simp only [closed, Bool.and_eq_true] at h
+  obtain ⟨h0, hR⟩ := h
+  intro n
+  induction n with
+  | zero => exact ⟨.start, rfl, by simpa [smTrace] using h0⟩
+  | succ n ih =>
+    obtain ⟨r, hr, hmem⟩ := ih
+    obtain ⟨r', hstep, hmem'⟩ := C01.step_sim act cond f prog sm R hR r _ hmem (inp n (smTrace act cond sm inp n (0, s0)).2)
+    refine ⟨r', ?_, ?_⟩
+    · simp only [refTrace, hr, smTrace]; exact hstep
+    · simp only [smTrace]; exact hmem'
+
+/-- C01 in the words of the property: if the certificate checker accepts (source body, emitted state
+    machine), then after EVERY number of clocks, for EVERY way the environment changes the inputs between
+    clocks (`inp`), every initial data state and EVERY interpretation of actions and conditions, the
+    reference execution of the coroutine body is defined and the complete data state (outputs, registers,
+    variables) of the state machine equals it: no clock is gained or lost on any path and no statement is
+    skipped or executed twice. -/
+theorem C01.no_clock_gained_or_lost (f : Nat) (prog : Stmt) (sm : SM) (R : List (Susp × Nat))
+    (h : closed f prog sm R = true) (inp : Nat → σ → σ) (s0 : σ) (n : Nat) :
+    (refTrace act cond f prog inp n (some (.start, s0))).map (·.2) =
+      some (smTrace act cond sm inp n (0, s0)).2 := by
+  obtain ⟨r, hr, _⟩ := C01.validate_sound act cond f prog sm R h inp s0 n
+  rw [hr]; rfl
+
+namespace CohdlVerif.C01.Example
+/-- upstream design tests/reference_builds/coroutines/test_while_break_continue_01 as a `Stmt` ... -/
+def prog : Stmt :=
+  .act 1 (.while_ none (.act 2 (.act 3 (.await (some 10) (.ite 11 .cont .brk .skip)))) .skip)
+def body : Code := .trans 2 (.act 2 (.act 3 .nil))
+/-- ... and its real emitted state machine -/
+def sm : SM := ⟨[ .trans 1 (.act 1 .nil), body, .ite 10 (.ite 11 body (.trans 0 .nil) .nil) .nil .nil ]⟩
+def rel : List (Susp × Nat) :=
+  [(.start, 0), (.atHead none (.act 2 (.act 3 (.await (some 10) (.ite 11 .cont .brk .skip)))) .skip [], 1),
+   (.atAwait (some 10) (.ite 11 .cont .brk .skip)
+      [.loop none (.act 2 (.act 3 (.await (some 10) (.ite 11 .cont .brk .skip)))) .skip], 2)]
+/-- a wrong machine: after `break` it restarts at the loop head instead of the first statement -/
+def smBad : SM := ⟨[ .trans 1 (.act 1 .nil), body,
+  .ite 10 (.ite 11 body (.trans 1 .nil) .nil) .nil .nil ]⟩
+end CohdlVerif.C01.Example
+
+open CohdlVerif.C01.Example in
+/-- non-vacuity: the hypothesis of `C01.validate_sound` holds for a real design (checked by the kernel) -/
+example : closed 100 prog sm rel = true := by decide
+
+open CohdlVerif.C01.Example in
+/-- and the checker does reject a wrong machine -/
+example : closed 100 prog smBad rel = false := by decide
